@@ -34,6 +34,8 @@ temp prefix starts with a dot and listings use the '*' glob; C12.5 the up-to-
 date shortcut is taken only under file ctime >= placement creation time
 (seconds, no truncation) and the cache file is written on every path that has
 the manifest; thorough: only the owner modules write the cache directory.
+Fourth round: C12.1 every placement notification reaches _synchronize; C12.5 a
+ZooKeeper read of _cache tolerates exactly the missing node.
 Does NOT decide real crash atomicity of the file system nor convergence from
 arbitrary prior contents beyond the set algebra.
 """
